@@ -208,7 +208,7 @@ def check_alloc_refusals(P, ctx):
             extra = sorted(refused - may)
             ctx.check(not extra, rule, fn['name'], site(fn), 'the allocation-class tests refuse %s; anything else (a heap object, an element inside a container) is served with and without the check' % (
                 ' / '.join(sorted(may))), ['also refused: %s' % ', '.join(extra)] if extra else None)
-    ctx.floor(rule, 15)
+    ctx.floor(rule, 6)
 
 
 def check_cache_regions(P, ctx):
